@@ -91,9 +91,20 @@ def main():
 
     man = Manager()
 
-    def with_fake(size, rank, fn, totals=None):
+    persistent = {}
+
+    def with_fake(size, rank, fn, totals=None, keep=False):
+        """Runs fn(dc) with the Manager's DistributedConfiguration replaced
+        by a fake rank.  keep=True reuses ONE configuration object per
+        (size, rank) for the whole run, as a real process does: whatever the
+        library remembers on it from earlier loops is present."""
         old = man.parallel_conf
-        dc = FakeDC(size, rank, totals)
+        if keep:
+            dc = persistent.get((size, rank))
+            if dc is None:
+                dc = persistent[(size, rank)] = FakeDC(size, rank, totals)
+        else:
+            dc = FakeDC(size, rank, totals)
         man.parallel_conf = dc
         try:
             return fn(dc), dc
@@ -103,7 +114,7 @@ def main():
     # ---------------------------------------------------------------- TLC (S,T)
     cfg = "BlockRanges_large.cfg" if ck.thorough else "BlockRanges.cfg"
     res = ck.tlc("BlockRanges", cfg, coverage=True, workers=16)
-    for act in ("StepAny", "Reduce"):
+    for act in ("StepAny", "Reduce", "NewLoop"):
         if res["coverage"].get(act, (0, 0))[1] == 0:
             raise MachineryFailure("vacuous: action %s never taken" % act)
     # negative control: the variant that ignores `start` must be rejected
@@ -119,13 +130,18 @@ def main():
             raise MachineryFailure("table too small")
 
         # ------------------------------------------- tables vs real code (H)
+        # rows of equal size and length are adjacent and the configuration
+        # objects persist, so consecutive loops differ in `start` only
+        rows.sort(key=lambda r: (r["size"], r["stop"] - r["start"],
+                                 r["start"]))
         for row in rows:
             size, start, stop = row["size"], row["start"], row["stop"]
             blocks_code = []
             for rank in range(size):
                 (rng, dc) = with_fake(
                     size, rank,
-                    lambda dc: par._calculate_ranges(dc, start, stop))
+                    lambda dc: par._calculate_ranges(dc, start, stop),
+                    keep=True)
                 blocks_code.append(list(rng))
                 if [list(x) for x in dc.ranges][rank] != list(rng):
                     ck.violation("ranges-table-consistent", "ranges-attr",
@@ -166,8 +182,16 @@ def main():
                         finally:
                             par.close_parallel_region()
                         return r, l1, l2, list(a1), a2
-                    (out, dc) = with_fake(size, rank, pub)
+                    out = None
+                    with ck.guarded("iterators-cover-once", "iterator",
+                                    dict(size=size, start=start, stop=stop,
+                                         rank=rank)):
+                        (out, dc) = with_fake(size, rank, pub, keep=True)
+                    if out is None:
+                        break
                     covered.append(out)
+                if len(covered) != size:
+                    continue
                 whole = list(range(start, stop))
                 n = stop - start
                 cat = lambda k: [x for o in covered for x in o[k]]
@@ -201,20 +225,32 @@ def main():
             raise MachineryFailure("too few behaviours: %d" % len(behs))
         for beh in behs:
             s0 = beh[0][1]
-            size, start, stop = s0["size"], s0["start"], s0["stop"]
-            its = []
-            for rank in range(size):
-                def mk(dc):
-                    par.start_parallel_region()
+            size = s0["size"]
+            # one configuration object per rank for the whole program
+            dcs = [FakeDC(size, rank) for rank in range(size)]
+
+            def iterators(start, stop):
+                its = []
+                for rank in range(size):
+                    old = man.parallel_conf
+                    man.parallel_conf = dcs[rank]
                     try:
-                        return iter(par.block_distributed_range(start, stop))
+                        par.start_parallel_region()
+                        try:
+                            its.append(iter(par.block_distributed_range(
+                                start, stop)))
+                        finally:
+                            par.close_parallel_region()
                     finally:
-                        par.close_parallel_region()
-                its.append(with_fake(size, rank, mk)[0])
+                        man.parallel_conf = old
+                return its
+            start, stop = s0["start"], s0["stop"]
+            its = iterators(start, stop)
             done = {}
             prev = s0
             bad = None
             steps = []
+            program = [(start, stop)]
             for act, st in beh[1:]:
                 if act in ("StepAny", "Step"):
                     pos0 = _fun(prev["pos"], 0)
@@ -239,17 +275,23 @@ def main():
                     if done != want:
                         bad = "work %r != serial %r" % (done, want)
                         break
+                elif act == "NewLoop":
+                    start, stop = st["start"], st["stop"]
+                    program.append((start, stop))
+                    its = iterators(start, stop)
+                    done = {}
+                else:
+                    raise MachineryFailure("unknown action %s" % act)
                 prev = st
-            ck.case("schedule-replay", (size, start, stop, tuple(steps)),
+            ck.case("schedule-replay", (size, tuple(program), tuple(steps)),
                     nontrivial=len(beh) > 2,
-                    sample=dict(size=size, start=start, stop=stop,
-                                steps=steps))
+                    sample=dict(size=size, program=program, steps=steps))
             ck.traces_validated += 1
             if bad:
                 ck.violation("reduced-equals-serial", "schedule",
-                             dict(size=size, start=start, stop=stop, why=bad),
-                             dict(kind="schedule", size=size, start=start,
-                                  stop=stop, steps=steps))
+                             dict(size=size, program=program, why=bad),
+                             dict(kind="schedule", size=size,
+                                  program=program, steps=steps))
     finally:
         shutil.rmtree(tmp, ignore_errors=True)
 
